@@ -404,7 +404,7 @@ def gen(ctx):
             continue
         yield {'phase': phase, 'shape': shape, 'dest': dest, 'byobj': i % 2 == 0,
                'val': [1, 0, 3, False, 7, '', None][i % 7], 'enum': True}
-    extra = 60 if ctx.tier == 'quick' else 1500
+    extra = 60 if ctx.tier == 'quick' else 30000
     for _ in range(extra):
         yield {'phase': rng.choice(PHASES), 'shape': rng.randrange(len(SHAPES)),
                'dest': rng.choice(DESTS), 'byobj': rng.random() < 0.5,
